@@ -95,4 +95,50 @@ theorem history_operand_wf [Inhabited ν] (steps : List (InPlace ν α)) (shape 
   rw [materialise_view s' d' t' ht']
   exact hd
 
+theorem viewIndices_eq_allIndexes (lens : List Nat) : Arith.viewIndices lens = allIndexes lens := by
+  induction lens with
+  | nil => rfl
+  | cons l ls ih => simp only [Arith.viewIndices, allIndexes, ih]
+
+/-- a C13 source as a C03 view operand -/
+def TView.toArith (v : TView ν α) : Arith.TView ν α := { shape := v.shape, get := v.get }
+
+theorem toArith_elems (v : TView ν α) : v.toArith.elems = v.iter := by
+  simp [Arith.TView.elems, Arith.TView.lens, TView.toArith, TView.iter, viewIndices_eq_allIndexes,
+    shapeIndexes_eq_allIndexes]
+
+/-- **C13's `elementwise` is C03's operator model**: `Tensor::elementwise*` (tensor on the left,
+    its data read directly) and `TensorView::elementwise*` of this file are C03's
+    `Arith.elementwise` at a tensor resp. view operand, for operands meeting the contracts. -/
+theorem elementwise_eq_arith [DecidableEq (Shape ν)] (f : α → α → α) (shape : Shape ν)
+    (data : List α) (t : Tensor ν α) (ht : Tensor.tryFrom shape data = some t) (l r : TView ν α)
+    (hr : r.lazy.Valid) :
+    t.elementwise f r = Arith.elementwise f (.tensor t) (.view r.toArith) ∧
+    l.elementwise f r = Arith.elementwise f (.view l.toArith) (.view r.toArith) := by
+  obtain ⟨⟨hc, hnd, hpos⟩, ht'⟩ := (tryFrom_eq_some_iff shape data t).1 ht
+  constructor
+  · unfold Tensor.elementwise Arith.elementwise
+    simp only [Arith.Operand.shape, Arith.Operand.seq, toArith_elems]
+    have hts : t.shape = shape := by rw [ht']
+    by_cases hs : t.shape = r.shape
+    · have hrs : r.toArith.shape = r.shape := rfl
+      rw [if_neg (by simp [hs]), hrs, if_pos hs]
+      have hlen : (List.zipWith f t.data r.iter).length = elements t.shape := by
+        rw [List.length_zipWith, r.iter_eq, hr.elems_length, ht']
+        simp only [TView.lazy_shape, ← hs, hts]
+        rw [hc]; simp [elements]
+      rw [Arith.tensorFrom_eq_ok _ _ hlen (by rw [hts]; exact ⟨hnd, hpos⟩)]
+      rw [ht']
+    · have hrs : r.toArith.shape = r.shape := rfl
+      rw [if_pos hs, hrs, if_neg hs]
+  · unfold TView.elementwise Arith.elementwise
+    simp only [Arith.Operand.shape, Arith.Operand.seq, toArith_elems]
+    have h1 : l.toArith.shape = l.shape := rfl
+    have h2 : r.toArith.shape = r.shape := rfl
+    rw [h1, h2]
+    by_cases hs : l.shape = r.shape
+    · rw [if_neg (by simp [hs]), if_pos hs]
+      rfl
+    · rw [if_pos hs, if_neg hs]
+
 end EasyMl
